@@ -44,7 +44,7 @@ fn spec(prop: &str) -> Option<Spec> {
         "C02" => Spec {
             prop: "C02",
             hosts: &[Direct, Core, Legacy, BridgeBincode, BridgeJson],
-            gen: GenCfg { again_weight: 6, ..GenCfg::standard() },
+            gen: GenCfg { again_weight: 6, garbage_weight: 2, ..GenCfg::standard() },
             rule: "programs with several one-shot, notification and stream requests outstanding at once (equal operations included: requests are told apart only by their position in the program); schedules interleave resolutions, repeated resolutions of answered one-shots, resolutions of notifications and of ended streams; every resolution result (accepted / rejected) and the task that received each value are compared with the reference on the typed and on both serialized paths; non-trivial = >= 2 requests outstanding at once and >= 1 repeated or late resolution; distinct = distinct (host, universe)",
             nontrivial: |_, i| i.max_outstanding >= 2 && i.late_resolves >= 1,
             quick: 3_000,
@@ -62,7 +62,7 @@ fn spec(prop: &str) -> Option<Spec> {
         "C13" => Spec {
             prop: "C13",
             hosts: &[Direct, Core, Core, Legacy, BridgeBincode, BridgeJson],
-            gen: GenCfg { max_acts: 260, start_weight: 6, ..GenCfg::standard() },
+            gen: GenCfg { max_acts: 260, start_weight: 6, scale: false, ..GenCfg::standard() },
             rule: "long cyclic histories (up to 260 shell actions: programs started again and again, resolutions, drops, aborts, late resolutions) on direct / Core / legacy / bridge hosts; after every call: no finished task future is still held (drop counters on every task root future the generated program creates), the core's executor holds exactly as many tasks as there are unfinished commands returned by update, the bridge registry holds no entry for a request that can no longer be resolved; after dropping the host no task future exists; non-trivial = >= 100 actions in which the set of outstanding requests returned to empty >= 10 times; distinct = distinct (host, universe)",
             nontrivial: |_, i| i.actions >= 100 && i.returned_to_empty >= 10,
             quick: 400,
@@ -92,7 +92,7 @@ fn spec(prop: &str) -> Option<Spec> {
         "C06" => Spec {
             prop: "C06",
             hosts: &[Direct, Core],
-            gen: GenCfg::standard(),
+            gen: GenCfg { abort_weight: 3, behind_then: 12, ..GenCfg::standard() },
             rule: "programs with abortable commands, task aborts and exported join handles; schedules inject aborts and drops at generated points and keep resolving afterwards; non-trivial = a cancellation (abort or drop) happened while >= 1 other request was outstanding and a resolution followed; distinct = distinct (host, universe)",
             nontrivial: |_, i| (i.aborts + i.drops) >= 1 && i.max_outstanding >= 2,
             quick: 3_000,
@@ -113,7 +113,7 @@ fn spec(prop: &str) -> Option<Spec> {
         "C09" => Spec {
             prop: "C09",
             hosts: &[BridgeBincode, BridgeJson],
-            gen: GenCfg::standard(),
+            gen: GenCfg { garbage_weight: 1, ..GenCfg::standard() },
             rule: "histories with many requests outstanding and out-of-order responses through the bincode and JSON bridges; decoded requests, ids and view compared with the reference; non-trivial = >= 3 requests outstanding at once, responses out of issue order; distinct = distinct (host, universe)",
             nontrivial: |_, i| i.max_outstanding >= 3 && i.out_of_order,
             quick: 3_000,
@@ -165,7 +165,13 @@ fn clause_of(msg: &str) -> &'static str {
     TABLE.iter().find(|(k, _)| msg.contains(k)).map(|(_, c)| *c).unwrap_or("unclassified")
 }
 
-fn owns(prop: &str, clause: &str) -> bool {
+fn owns(prop: &str, clause: &str, cancel_context: bool) -> bool {
+    // C06 is about what a cancellation does and does not do: whatever goes wrong in the call that
+    // cancels (drop, abort, a task aborting other work), or in a call that resolves a request of
+    // cancelled work, is a consequence of the cancellation
+    if prop == "C06" && cancel_context && ["runnable-left", "dead-kept", "done-flag", "events-unapplied", "view", "delivery", "resolve-result"].contains(&clause) {
+        return true;
+    }
     let list: &[&str] = match prop {
         "C01" => &["effects", "runnable-left", "events-unapplied"],
         "C02" => &["resolve-result", "delivery"],
@@ -212,6 +218,21 @@ fn labels(u: &Universe, info: &CaseInfo, host: HostKind) -> Vec<String> {
     }
     if info.spurious_polls > 0 {
         l.push("obs:spurious-poll".into());
+    }
+    if info.drains > 0 {
+        l.push("sched:drain".into());
+    }
+    if info.garbage > 0 {
+        l.push("sched:garbage-to-live-stream".into());
+    }
+    if info.in_task_aborts > 0 {
+        l.push("obs:abort-from-inside-a-task".into());
+    }
+    if info.max_outstanding > 1024 {
+        l.push("scale:outstanding>1024".into());
+    }
+    if info.max_events_in_call > 1024 {
+        l.push("scale:events-in-one-call>1024".into());
     }
     l
 }
@@ -261,16 +282,16 @@ fn main() {
     let check = |c: &Case| -> Result<(), String> {
         let info = match run_case(&c.universe, &CaseCfg { host: c.host, tolerate_retaining, byte_late_resolves: sp.prop == "C02", release_checks: sp.prop == "C13", tolerate: tolerate.clone() }) {
             Ok(info) => info,
-            Err(fails) => {
+            Err(fail) => {
                 // every clause that failed in the first failing call; report the first one this property owns
-                if let Some(why) = fails.iter().find(|w| owns(sp.prop, clause_of(w))) {
-                    return Err(format!("[{}] {why}", clause_of(why)));
+                if let Some(why) = fail.msgs.iter().find(|w| owns(sp.prop, clause_of(w), fail.cancel_context)) {
+                    return Err(format!("[{}] after {}: {why}", clause_of(why), fail.act));
                 }
                 // none of them is this property's clause: the case ends unjudged
-                let clause = clause_of(&fails[0]);
+                let clause = clause_of(&fail.msgs[0]);
                 if clause == "driver" {
                     driver_errors.fetch_add(1, std::sync::atomic::Ordering::Relaxed);
-                    eprintln!("harness error: {}", fails[0]);
+                    eprintln!("harness error: {}", fail.msgs[0]);
                 }
                 stats.label(&format!("foreign:{clause}"));
                 return Ok(());
@@ -302,7 +323,7 @@ fn main() {
             for k in &known {
                 if let Some((host, universe, needle)) = reproducer(&k.sig) {
                     let strict = CaseCfg { host, tolerate_retaining: false, byte_late_resolves: false, release_checks: sp.prop == "C13", tolerate: vec![] };
-                    if matches!(run_case(&universe, &strict), Err(e) if e.iter().any(|w| w.contains(needle))) {
+                    if matches!(run_case(&universe, &strict), Err(e) if e.msgs.iter().any(|w| w.contains(needle))) {
                         vkit::print_known_finding(k);
                     }
                 }
